@@ -185,7 +185,7 @@ C10(E, S, line) ==
 ----------------------------------------------------------------------------
 \* C12: the empty query lists the top-rated records
 C12(E, S, line) ==
-  IF ~(Has(E, "qtok") /\ ~QHasWords(E) /\ UniqueIds(S.s)) THEN NoRes
+  IF ~(Has(E, "qtok") /\ ~QHasAlnum(E) /\ UniqueIds(S.s)) THEN NoRes
   ELSE
   LET s == S.s  h == E.hits
       listed == { h[i].id : i \in DOMAIN h }
